@@ -19,7 +19,8 @@ REQUIRED = ['treeOK_of_disciplined', 'tree_discipline', 'run_discipline', 'leaf_
             'pass_step', 'pass_last', 'pass_across', 'schedule_length', 'single_file_view', 'flatten_own_events', 'wall_loop_depths',
             'trenchBlock_disciplined', 'blocksFrom_disciplined', 'farcallBody_disciplined', 'farcallBody_pre', 'farcallFile_disciplined',
             'shipped_headers_disciplined', 'loops_wallLoop', 'farcallBody_loops', 'matchWallLoop_body', 'matchWallLoop_bodyD',
-            'bedBlock_disciplined', 'bedsFrom_disciplined', 'leafLine_xy', 'leafFile_isLeafXY']
+            'bedBlock_disciplined', 'bedsFrom_disciplined', 'leafLine_xy', 'leafFile_isLeafXY',
+            'sessionWith_ok', 'farcallBody_ok', 'farcallFile_ok']
 RULE = ('1..3 trench columns (or U-trench columns with 0..2 pillars) are dug with the real API from layouts of straight / tilted / S-bent '
         'guides (some leaving a neck that splits when inset), with random box counts, box height, z offset <= 0, deltaz, floor spacing, '
         'speeds, power-axis settings and base folders, and exported by the real TrenchWriter / UTrenchWriter.pgm() under random compiler '
@@ -50,10 +51,16 @@ CLAIM = {
             'n = ceil((h_box - z_off)/deltaz) passes deltaz apart from level*h_box + z_off, the last within deltaz below the box top, '
             'the floor at or above it, the next level at most deltaz above the last pass; and the program side: k turns of the wall loop '
             '[DWELL] FARCALL wall; $ZCURR += deltaz/neff; G1 Z$ZCURR, entered at the level\'s starting depth, put pass k at exactly that '
-            'schedule depth (every real REPEAT is matched against this shape each run). Leaf tool-paths inside the footprints: measured.',
+            'schedule depth (every real REPEAT is matched against this shape each run). Compile side (session 5): Model/TrenchProg.lean models '
+            'the code that emits the tree — _farcall_trench_column of both writers (levels x trenches, beds of U-trench columns), MAIN.pgm '
+            '(farcall_list session) and export_array2d (leaf files) — and is compared instruction by instruction with every real file of every '
+            'generated tree; theorems for every column / configuration: farcallFile_disciplined (the whole call file passes the static check: '
+            'x/y motion only closed, shutter open exactly across the wall loop, the floor call and the bed calls), farcallBody_loops (its only '
+            'loops are wall loops of n_repeat turns with increment fmt6(deltaz/neff) — the shape of wall_loop_depths), leafFile_isLeafXY (what '
+            'export_array2d writes is an x/y-only leaf). Leaf tool-paths inside the footprints: measured.',
     'note': 'PARTIAL: footprint containment of wall/floor/bed paths is sampled (shapely); it fails today for floor joins of blocks '
             'that split or stay concave (finding F9). Trusted: Lean kernel/Mathlib; Spec/Tree.lean (hand-written controller) run on the real files.',
-    'technique': 'Lean 4 proof (soundness of a static shutter analysis for a tree interpreter; rational arithmetic) + translation validation of the real exported tree; footprints sampled (partial)',
+    'technique': 'Lean 4 proof (soundness of a static shutter analysis for a tree interpreter; discipline and loop shape of the compile-side model of the emitting code by composition over compiler steps; rational arithmetic) + instruction-level correspondence of every exported file with the model + translation validation of the real tree; footprints sampled (partial)',
 }
 
 EXTRA_MODULES = ['FemtoVerif.Proofs.TreeLemmas']
@@ -374,6 +381,10 @@ def check_case(ctx, case):
             d = instr_diff(impl_f.get('instrs') or [], model_f['instrs'], scale * 2.0 ** -20 + 2e-6 + (0 if int(cfg.get('output_digits', 6)) >= 6 else 10.0 ** -int(cfg['output_digits'])))
             if d:
                 ctx.fail('corr', 'farcall', {**info, 'file': name, 'col': ci}, f'{name}: the call file differs from the compile-side model: {d}', 'farcall:model')
+            elif impl_f.get('dwell') is not None and abs(fr(impl_f['dwell']) - fr(model_f['reported_dwell'])) > 1e-9:
+                # farcallFile_ok: the dwell the model compiler reports is the dwell the controller executes on the file
+                ctx.fail('corr', 'farcall', {**info, 'file': name, 'col': ci},
+                         f'{name}: the controller executes {float(fr(impl_f["dwell"]))} s of DWELL, the model compiler reports {float(fr(model_f["reported_dwell"]))} s', 'farcall:dwell')
         T = res[0]
         leaf_runs = dict(zip([n for n, _ in leaf_files], res[1:1 + len(leaf_files)]))
         depth = res[1 + len(leaf_files):]
